@@ -15,12 +15,15 @@ NL == "\n"
 MissingOperand == <<"put 5 into", "say", "put into foo", "let foo be", "build up", "knock down", "rock", "roll", "cut", "turn up",
                     "foo taking", "if", "while", "until", "give back", "listen to", "foo takes", "put 5 plus into foo", "say 1 plus",
                     "say foo at", "say not", "join foo with", "cut foo into", "say foo is", "say foo and", "rock foo with", "roll foo into",
-                    "let foo at be 5", "foo taking 1,", "say 1 over", "let foo be with", "say foo is as big as", "say -", "foo is", "foo says">>
+                    "let foo at be 5", "foo taking 1,", "say 1 over", "let foo be with", "say foo is as big as", "say -", "foo is", "foo says",
+                    "foo says\r", "foo is\r", "say\r", "put 5 into\r">>     \* the same with a carriage return before the line end
 MissingKeyword == <<"put 5 foo", "let foo 5", "build foo", "knock foo", "build foo down", "turn foo", "say foo is bigger bar",
                     "say foo is as big bar", "say foo is as bar", "take it to top", "take it the top", "take to the top", "break it",
                     "take it to the", "put 5 in to foo", "let foo be 5 into bar">>
 TwoStatements == <<"say 1 say 2", "put 5 into foo say foo", "build foo up say foo", "break continue", "listen to foo listen to bar",
-                   "say 1 put 2 into foo", "roll foo rock foo", "turn foo up turn foo down", "give back 1 give back 2", "say 1 else">>
+                   "say 1 put 2 into foo", "roll foo rock foo", "turn foo up turn foo down", "give back 1 give back 2", "say 1 else",
+                   \* after a right-hand side that is an ordinary expression (a literal word or a number first), not a poetic literal
+                   "foo is true say foo", "foo is 5 say foo", "foo is nothing bar is 2", "foo is -5 say foo", "foo is \"s\" say foo">>
 BadStart == <<"ab1 is 5", "_x is 5", "5 is foo", "a1 says hi", "x_y is 5", "+ 1", "and foo", "with 5", "into foo", "back", "up", "taking 1",
               "is 5", ", say 1", "'s 5", "5", "\"str\" is 5", "`", "1abc",
               \* letters followed or interrupted by a character that is no letter (euro sign, one half, emoji, control character)
@@ -42,7 +45,8 @@ Contexts == <<
   [pre |-> NL \o NL \o NL, post |-> ""],
   [pre |-> "if foo" \o NL \o "say 1" \o NL \o "else" \o NL, post |-> NL \o NL],
   [pre |-> "bar takes baz" \o NL \o "give back baz" \o NL \o NL, post |-> NL \o NL \o "say 3"],
-  [pre |-> "foo says \"quoted\" (and closed)" \o NL \o "say 1," \o NL, post |-> NL]
+  [pre |-> "foo says \"quoted\" (and closed)" \o NL \o "say 1," \o NL, post |-> NL],
+  [pre |-> "say 1\r" \o NL \o "bar is 2\r" \o NL, post |-> "\r" \o NL \o "say 2\r" \o NL]          \* a file with CR LF line ends
 >>
 CountNl(s) == LET RECURSIVE C(_) C(i) == IF i > Len(s) THEN 0 ELSE (IF SubSeq(s, i, i) = NL THEN 1 ELSE 0) + C(i + 1) IN C(1)
 =============================================================================
